@@ -223,10 +223,21 @@ def div(a, b):
             return _r(a) if z3.is_bool(a) else a
         return _r(a) * z3.RealVal(str(1 / Fraction(bb)))
     rb = _r(b)
-    ctx().oblige(rb != 0, "division by zero", _where())
+    c = ctx()
+    c.oblige(rb != 0, "division by zero", _where())
     if is_conc(a) and not _nonfinite(a) and _num(a) == 0:
         return Fraction(0)
-    return _r(a) / rb
+    # quotient as a defined symbol: q*b == a (whenever b != 0) keeps queries polynomial
+    k = ("div",) + _key(a) + _key(b)
+    hit = c.defs.get(k)
+    if hit is not None:
+        return hit[0]
+    q = c.fresh("quot")
+    ra = _r(a)
+    c.axiom(z3.Implies(rb != 0, q * rb == ra))
+    c.defs[k] = (q, (a, b))
+    c.defsym[q.get_id()] = ("div", a, b)
+    return q
 
 
 def sq(a):
@@ -353,9 +364,12 @@ def ne(a, b):
     return _cmp(a, b, "ne")
 
 
-def ite(c, a, b):
+def ite(c, a, b, kind="where"):
     if is_conc(c):
         return a if bool(c) else b
+    if CTX is not None and kind in CTX.split:
+        # case split instead of an if-then-else term: one hard query becomes several easy ones
+        return a if CTX.decide(truth(c), site="split:" + kind) else b
     if is_conc(a) and is_conc(b) and type(a) == type(b) and a == b:
         return a
     if is_sym(a) and is_sym(b) and a.eq(b):
@@ -373,19 +387,19 @@ def ite(c, a, b):
 def absv(a):
     if is_conc(a):
         return abs(_num(a))
-    return ite(ge(a, 0), a, neg(a))
+    return ite(ge(a, 0), a, neg(a), "abs")
 
 
 def maxv(a, b):
     if is_conc(a) and is_conc(b):
         return max(_num(a), _num(b))
-    return ite(ge(a, b), a, b)
+    return ite(ge(a, b), a, b, "minmax")
 
 
 def minv(a, b):
     if is_conc(a) and is_conc(b):
         return min(_num(a), _num(b))
-    return ite(le(a, b), a, b)
+    return ite(le(a, b), a, b, "minmax")
 
 
 def sign(a):
@@ -454,7 +468,7 @@ def sqrt(a):
         return hit[0]
     s = c.fresh("sqrt")
     ra = _r(a)
-    c.axiom(z3.And(s >= 0, s * s == ra))
+    c.axiom(z3.And(s >= 0, s * s == ra), weak=z3.And(s >= 0, z3.Implies(s == 0, ra == 0)))
     if is_conc(a):
         f = math.sqrt(float(a))
         c.axiom(z3.And(s >= Z(f * (1 - 1e-12)), s <= Z(f * (1 + 1e-12))))
